@@ -564,9 +564,9 @@ def dict_method(it, ref, h, name, args, kwargs):
     if name == "get":
         return it.dict_get(h, args[0], default=args[1] if len(args) > 1 else None)
     if name == "items":
-        return tuple((k, v) for k, v in h.items.items())
+        return tuple((getattr(k, "value", k) if type(k).__name__ == "SymKey" else k, v) for k, v in h.items.items())
     if name == "keys":
-        return tuple(h.items.keys())
+        return tuple(getattr(k, "value", k) if type(k).__name__ == "SymKey" else k for k in h.items.keys())
     if name == "values":
         return tuple(h.items.values())
     if name == "setdefault":
@@ -574,7 +574,7 @@ def dict_method(it, ref, h, name, args, kwargs):
         if cur is _MISSING:
             it.ctx.mutate()
             d = args[1] if len(args) > 1 else None
-            h.items[it.hashable(args[0])] = d
+            h.items[it.dict_key(args[0])] = d
             return d
         return cur
     if name == "pop":
@@ -973,7 +973,7 @@ def task_method(it, ref, h, name, args, kwargs):
         for i, m in enumerate(members):
             if len(members) == 1 or it.decide(it.equal(oc, VEnum("task_outcome", m)), f"task outcome is {m}"):
                 if m == "returned":
-                    return None
+                    return f.get("_result") if name == "result" else None
                 if name == "exception" and m != "CancelledError":
                     return ExcValue(m)
                 raise PyRaise(m)
@@ -998,12 +998,13 @@ def call_asyncio(it, name, args, kwargs):
                  "(calls it makes to scripted collaborators are recorded at creation)")
         co = args[0]
         outcome = None
+        task_result = None
         if isinstance(co, Coro) and co.scripted:
             # the task is in flight from now on: what it calls on scripted collaborators is recorded here,
             # and how the coroutine ends is how the task will end.  (Coroutines of repository functions
             # are not run: such a task ends in an arbitrary way at an arbitrary later time.)
             try:
-                it.engine.run_coro(it, co)
+                task_result = it.engine.run_coro(it, co)
                 outcome = VEnum("task_outcome", "returned")
             except PyRaise as e:
                 if isinstance(e.cls, str):
@@ -1011,6 +1012,7 @@ def call_asyncio(it, name, args, kwargs):
         t = it.ctx.alloc(HObj("ext:asyncio.Task", {
             "_done": False, "_outcome": outcome if outcome is not None else fresh_outcome(it),
             "callbacks": it.ctx.alloc(HList([])), "cancel_requested": False, "name": kwargs.get("name", Opaque("task-name")),
+            "_result": task_result,
             "__methods__": {}, "__stream__": None, "calls": it.ctx.alloc(HList([])), "results": it.ctx.alloc(HList([]))}))
         created = it.ctx.ghost.setdefault("created_tasks", it.ctx.alloc(HList([])))
         it.ctx.deref(created).items.append(t)
